@@ -1,11 +1,19 @@
 /* type environment + environment stubs for unit wheel_schedule (the locked part of TimingWheel::schedule / reschedule) */
 typedef struct TimerEntry { uint64_t id; void *callback; int64_t deadline; struct TimerEntry *prev, *next; size_t wheelLevel; size_t bucketIndex; bool thenReschedule; } TimerEntry;
+typedef struct { uint64_t first; struct TimerEntry *second; } IdPair; typedef IdPair *IdIt;
 typedef struct { int unused; } iora_idmap;
 typedef struct { int64_t _tickDuration; iora_idmap _entryMap; int64_t _lastAdvanceTime; bool _accepting; uint64_t _nextId; } TimingWheel;
 size_t G_wheel_locks; int64_t G_clock_floor; TimerEntry *G_alloc_entry; uint64_t G_map_key; TimerEntry *G_map_slot;
 size_t G_ins_calls; TimerEntry *G_ins_e; int64_t G_ins_delay;
-static inline int64_t iora_clock_now(void) { int64_t t = nondet_i64(); IORA_ASSUME(t >= G_clock_floor && t <= ((int64_t)1 << 61)); return t; }   /* steady clock: monotone */
+int64_t G_clock_last; size_t G_clock_reads;
+static inline int64_t iora_clock_now(void) { int64_t t = nondet_i64(); IORA_ASSUME(t >= G_clock_floor && t <= ((int64_t)1 << 61)); G_clock_last = t; G_clock_reads++; return t; }   /* steady clock: monotone */
 size_t G_map_writes;
 static inline TimerEntry **iora_idmap_at(iora_idmap *m, uint64_t id) { (void)m; G_map_key = id; G_map_writes++; return &G_map_slot; }
 #define TimingWheel_allocEntry(self) (G_alloc_entry)
 static inline void TimingWheel_insertEntry(TimingWheel *self, TimerEntry *entry, int64_t delay) { (void)self; G_ins_calls++; G_ins_e = entry; G_ins_delay = delay; }
+
+/* reschedule(): id map lookup and unlink are environment stubs */
+IdIt G_find_result; uint64_t G_find_key; size_t G_finds, G_unlinks, G_unlink_before_insert; TimerEntry *G_unlinked;
+static inline IdIt iora_idmap_end(iora_idmap *m) { (void)m; return NULL; }
+static inline IdIt iora_idmap_find(iora_idmap *m, uint64_t k) { (void)m; G_finds++; G_find_key = k; return G_find_result; }
+static inline void TimingWheel_unlinkEntry(TimingWheel *self, TimerEntry *e) { (void)self; G_unlinks++; G_unlinked = e; if (G_ins_calls == 0) G_unlink_before_insert = 1; }
